@@ -429,7 +429,7 @@ func (c Cfg) New() goldmark.Markdown {
 }
 
 // Channels lists the ways NewVia can hand the same options to the library.
-var Channels = []string{"standard", "direct-constructors", "late-AddOptions", "split", "explicit-false", "heading-parser-constructors", "generic-parser-WithOption", "one-With-call-per-option"}
+var Channels = []string{"standard", "direct-constructors", "late-AddOptions", "split", "explicit-false", "heading-parser-constructors", "generic-parser-WithOption", "one-With-call-per-option", "SetParser-SetRenderer"}
 
 // explicitRendererOptions returns the renderer options of c with every switch that is off passed explicitly as
 // renderer.WithOption(name, false) (the generic option channel every node renderer's SetOption sees).
@@ -520,6 +520,17 @@ func (c Cfg) NewVia(ch int) goldmark.Markdown {
 		p := parser.NewParser(parser.WithBlockParsers(bps...), parser.WithInlineParsers(parser.DefaultInlineParsers()...),
 			parser.WithParagraphTransformers(parser.DefaultParagraphTransformers()...))
 		return goldmark.New(goldmark.WithParser(p), goldmark.WithExtensions(c.Extenders()...), goldmark.WithRendererOptions(c.RendererOptions()...))
+	}
+	if ch == 8 {
+		// parser and renderer built by hand and installed with SetParser / SetRenderer (core only: the setters replace
+		// what extensions registered)
+		po := append([]parser.Option{parser.WithBlockParsers(parser.DefaultBlockParsers()...),
+			parser.WithInlineParsers(parser.DefaultInlineParsers()...),
+			parser.WithParagraphTransformers(parser.DefaultParagraphTransformers()...)}, c.ParserOptions()...)
+		m := goldmark.New()
+		m.SetParser(parser.NewParser(po...))
+		m.SetRenderer(renderer.NewRenderer(renderer.WithNodeRenderers(util.Prioritized(html.NewRenderer(c.htmlOptions()...), 1000))))
+		return m
 	}
 	if ch == 7 {
 		// every option in a With…Options call of its own, extension first, followed by empty calls
